@@ -31,5 +31,14 @@ def run(ctx, chk):
     memrules.rule_sink_coverage(ctx, chk, eng)
     memrules.rule_free_then_null(ctx, chk, eng)
     memrules.rule_typestate(ctx, chk, eng, kinds=('double-free', 'use-after-free'), rule='no-double-free')
+    # segment texts that were replaced by fresh copies are released when segments are removed
+    from ..report import Check
+    from .. import ownrules
+    tmp = Check('tmp')
+    ownrules.run_rules(ctx, tmp, eng)
+    chk.rule('ownership-flag', tmp.rules['ownership-flag'], floor=4)
+    for o in tmp.obls:
+        if o.rule == 'ownership-flag':
+            chk.obls.append(o)
     shared.positive_examples(ctx, chk, ['static_written'], want_alloc=True)
     chk.analysed['functions'] = len(ctx.irp.funcs)
